@@ -288,8 +288,8 @@ static unsigned long long nx_state_hash(void) { return 0; }
 static int nx_leaf_bytes(char *buf, int max)
 {
 	(void) max;
-	strcpy(buf, "q!\n");
-	return 3;
+	strcpy(buf, "w! out\n.=\nq!\n");
+	return strlen(buf);
 }
 static void nx_at_exit(void)
 {
@@ -350,6 +350,8 @@ int main(int argc, char **argv)
 	nx_init(argc, argv, 1, 0);
 	nx_pre_state = pre_state;
 	nx_shard_level = -1;	/* configurations are distributed over the shards */
+	nx_trace_every = atoi(nv_arg(argc, argv, "trace", nv_thorough ? "1499" : "127"));
+	nx_trace_stdout = 1;
 	setenv("EXINIT", "", 1);
 	build_ops();
 	(void) real_op_bytes;
